@@ -75,6 +75,7 @@ Definition err_allowed (c : cfg) (toks : list token) (code : nat) : bool :=
   | 1%nat => match unify c with UNone => true | _ => false end          (* assert x.shape == x2.shape *)
   | 2%nat => Qltb 0 (cutmix_p c) || match unify c with UOther => true | _ => false end
   | 3%nat => has_other toks
+  | 6%nat => match mixup_alpha c with None => Qltb 0 (cutmix_p c) | Some _ => false end   (* cutmix-only config *)
   | _ => false
   end.
 
